@@ -93,7 +93,7 @@ def run_shard(shard, ctx):
             sel = [pairs[j] for j in range(U + 1) if sm >> j & 1]
             keys = {"%s/%s" % tuple(p) for p in sel} & present
             exp = ["ok", restrict(full[1], keys)]
-            vias = ("file",) + (("file-tuple",) if sm % 5 == 0 else ()) + (("path", "path-bom") if sm % 7 == 3 else ())
+            vias = ("file",) + (("file-tuple",) if sm % 5 == 0 else ()) + (("path", "path-bom") if sm % 7 == 3 else ()) + (("file-reuse",) if sm % 4 == 1 else ())
             if sel and sm % 3 == 1:  # the same pairs named twice / in reverse order select the same tracks
                 e1.check_outcome(ctx, "selection", text, [exp], "file", sel + sel[::-1], "file tracks %r, selection with duplicates %r" % (sorted(present), sel + sel[::-1]))
                 ctx.case((text, "dup", tuple(map(tuple, sel))))
@@ -136,7 +136,7 @@ def run_shard(shard, ctx):
                     ctx.case((text, "longsel", len(sel), tuple(map(tuple, sel[:3]))), sample=lambda: dict(file_tracks=sorted(present), selection_length=len(sel), distinct=len({tuple(p) for p in sel})))
                     ctx.evaluations += 1
                     ctx.hist["selection_len_%d" % len(sel)] += 1
-                    for via in ("file", "file-tuple"):
+                    for via in ("file", "file-tuple", "file-reuse"):
                         e1.check_outcome(ctx, "selection", text, [exp], via, sel, "file tracks %r%s, selection of %d entries (%d distinct)" % (sorted(present), " + an invalid [ExpertKeyboard]" if invalid else "", len(sel), len({tuple(p) for p in sel})))
     else:
         _, j, U = shard
